@@ -714,3 +714,28 @@ def run_static_slices(rec, F):
             if not ok:
                 rec.finding(R, "F4.slice/%s" % fn.path, "%s slices a %s-element constant array with a run-time bound and no dominating range test: a function needing more slots panics the host" % (fn.name, m.group(1) if m else "fixed"), loc=loc_of(t["sp"]), fn=fn.path)
     rec.floor(R, "run-time slices of constant arrays", n, 3)
+
+
+def run_todo_sites(rec, F):
+    R = rec.rule("F4.todo", "no `todo!()` / `unimplemented!()` placeholder is left in run-time or front-end code that a program can reach (each is a host panic)")
+    n = 0
+    for fn in F.all_fns():
+        if fn.crate not in ("laythe_vm", "laythe_lib", "laythe_core") or "::test" in fn.path:
+            continue
+        for bi, t in fn.calls():
+            if t["f"] in ("core::panicking::panic", "core::panicking::panic_fmt", "core::panicking::panic_nounwind", "core::panicking::unreachable_display"):
+                msg = " ".join(a.get("dbg", "") for a in t["args"] if a.get("const"))
+                # panic_fmt: the message sits in the Arguments built just before
+                if "panic_fmt" in t["f"]:
+                    for b2, t2 in fn.calls():
+                        if t2["to"] == bi or (t2["to"] >= 0 and fn.blocks[t2["to"]]["t"] is t):
+                            msg += " " + " ".join(a.get("dbg", "") for a in t2["args"] if a.get("const"))
+                    for pf in [f for f in F.all_fns() if f.path.startswith(fn.path + "::promoted[")]:
+                        pass
+                if "not yet implemented" in msg or "not implemented" in msg:
+                    n += 1
+                    who = fn.name if fn.kind != "Closure" else fn.path.split("::")[-2]
+                    rec.inst(R, "%s" % who, ok=False, loc=loc_of(t["sp"]))
+                    rec.finding(R, "F4.todo/%s" % who, "%s contains a todo!()/unimplemented!() placeholder: reaching it is a host panic, not a language error" % who, loc=loc_of(t["sp"]), fn=fn.path)
+    rec.rules[R]["instances"] += 1
+    rec.rules[R]["discharged"] += 1
